@@ -49,6 +49,7 @@ class SimDisk(io.RawIOBase):
         self.n_trunc = 0
         self.n_flush = 0
         self.bytes_written = 0
+        self.short_reads = 0
         self.frozen = False     # when set, any mutation is recorded as an illegal write
         self.illegal = []
 
@@ -75,12 +76,19 @@ class SimDisk(io.RawIOBase):
         return self.pos
 
     def readinto(self, b):
+        # like HDF5's sec2 driver, a read that reaches past the end of the file is completed with
+        # zeros (h5py's fileobj driver does not look at the count, so leaving the tail of the
+        # buffer untouched would hand libhdf5 uninitialised memory - a nondeterminism leak that
+        # showed up as a one-in-thousands transient read error)
         n = len(b)
         chunk = self.buf[self.pos:self.pos + n]
         got = len(chunk)
         b[:got] = chunk
-        self.pos += got
-        return got
+        if got < n:
+            b[got:n] = bytes(n - got)
+            self.short_reads += 1
+        self.pos += n
+        return n
 
     def write(self, b):
         n = len(b)
@@ -206,10 +214,71 @@ class _FakePath:
 
 
 class _FakeOS:
+    """``os`` as seen by nixio.file.  Files live in the SimFS: the calls a library could make on
+    the paths of simulated files are served from it (so that e.g. a side-car file or a rename
+    behaves like on a real file system and never touches the real one)."""
     path = _FakePath()
+    _fds = {}
+    _next_fd = [1 << 20]
 
     def __getattr__(self, name):
         return getattr(_real_os, name)
+
+    @staticmethod
+    def _is_sim(path):
+        w = World.current
+        p = w.fs.norm(path)
+        return any(p == k or p.startswith(k) for k in list(w.fs.keys())) or p.endswith(".nix")
+
+    def replace(self, src, dst):
+        w = World.current
+        s_, d_ = w.fs.norm(src), w.fs.norm(dst)
+        if s_ in w.fs:
+            w.fs[d_] = w.fs.pop(s_)
+            return None
+        return _real_os.replace(src, dst)
+
+    rename = replace
+
+    def remove(self, path):
+        w = World.current
+        p = w.fs.norm(path)
+        if p in w.fs:
+            del w.fs[p]
+            return None
+        if self._is_sim(path):
+            raise FileNotFoundError(path)
+        return _real_os.remove(path)
+
+    unlink = remove
+
+    def open(self, path, flags, mode=0o777, **kw):
+        w = World.current
+        if not self._is_sim(path):
+            return _real_os.open(path, flags, mode, **kw)
+        p = w.fs.norm(path)
+        if p in w.fs:
+            if flags & _real_os.O_CREAT and flags & _real_os.O_EXCL:
+                raise FileExistsError(17, "File exists", p)
+        elif flags & _real_os.O_CREAT:
+            w.fs[p] = SimDisk(name=p)
+        else:
+            raise FileNotFoundError(2, "No such file", p)
+        fd = self._next_fd[0]
+        self._next_fd[0] += 1
+        self._fds[fd] = p
+        return fd
+
+    def close(self, fd):
+        if fd in self._fds:
+            del self._fds[fd]
+            return None
+        return _real_os.close(fd)
+
+    def write(self, fd, data):
+        if fd in self._fds:
+            return World.current.fs[self._fds[fd]].write(data)
+        return _real_os.write(fd, data)
 
 
 def _sim_make_fapl(*args, **kwargs):
@@ -268,14 +337,32 @@ class _H5fProxy:
         return getattr(h5py.h5f, name)
 
     @staticmethod
-    def create(path, *args, **kwargs):
+    def _bind(path, args, kwargs):
+        """the file-access property list always gets the SimDisk of the path that is actually
+        being created / opened (whatever path the library looked at before)"""
         w = World.current
         disk = w.fs.disk(path, create=True)
+        fapl = kwargs.get("fapl", args[1] if len(args) > 1 else None)
+        if fapl is not None:
+            disk.seek(0)
+            fapl.set_fileobj_driver(h5py.h5fd.fileobj_driver, disk)
+        return disk
+
+    @staticmethod
+    def create(path, *args, **kwargs):
+        disk = _H5fProxy._bind(path, args, kwargs)
         flags = kwargs.get("flags", args[0] if args else None)
         if flags is None or flags & h5py.h5f.ACC_TRUNC:
             disk.seek(0)
             disk.truncate(0)
         return h5py.h5f.create(path, *args, **kwargs)
+
+    @staticmethod
+    def open(path, *args, **kwargs):
+        w = World.current
+        if w.fs.exists(path):
+            _H5fProxy._bind(path, args, kwargs)
+        return h5py.h5f.open(path, *args, **kwargs)
 
 
 class _NixFileH5pyProxy:
